@@ -45,10 +45,10 @@ class Gen:
         return f"{base}{sep}{self.n}"
 
     # ---- expressions (the same text in both syntaxes: single line) ----
-    def num(self):
+    def num(self, unit=None):
         r = self.rng
         v = r.choice([0, 1, 2, 3, 10, 0.5, 1.25, 100, -1, -2.5])
-        return f"{v}{r.choice(UNITS)}"
+        return f"{v}{r.choice(UNITS) if unit is None else unit}"
 
     def atom(self, vars_):
         r = self.rng
@@ -84,7 +84,8 @@ class Gen:
         a, b = self.expr(vars_, depth + 1), self.expr(vars_, depth + 1)
         if op in (" + ", " - ", " * ", " < "):
             # keep arithmetic on numbers so that programs mostly evaluate
-            a, b = self.num(), (self.num() if r.random() < 0.7 else "2")
+            u = r.choice(UNITS)
+            a, b = self.num(u), (self.num(u) if r.random() < 0.7 else "2")
             if op == " * ":
                 b = r.choice(["2", "3", "0.5"])
         s = f"{a}{op}{b}"
@@ -187,7 +188,22 @@ class Gen:
         return out
 
     def program(self):
-        return self.stmts(0, [], False)
+        body = self.stmts(0, [], False)
+        if self.plain:
+            return body
+        # a final rule that uses what was defined (so that most programs emit CSS and every
+        # definition is reached through some spelling of its name)
+        top_vars = [s[1] for s in body if s[0] == "var"]
+        inner = self.stmts(1, top_vars, True)
+        for name, ar, content in self.mixins:
+            args = [self.num() for _ in range(ar)]
+            inner.append(("include", self.swap_some(name), args, [("decl", "k", "v")] if content else None))
+        for name, ar in self.funcs:
+            inner.append(("decl", "f", f"{self.swap_some(name)}({', '.join(self.num() for _ in range(ar))})"))
+        for v in top_vars[:3]:
+            inner.append(("decl", "w", "$" + self.swap_some(v)))
+        body.append(("rule", self.rng.choice(SELS), inner))
+        return body
 
 
 def print_scss(rng, stmts, ind=0):
@@ -395,6 +411,10 @@ def insert_ws_comments(rng, src, comments=True):
 _VAR = re.compile(r"\$[A-Za-z][A-Za-z0-9_-]*[A-Za-z0-9]")
 
 
+_SASS_AT = {"@if", "@else", "@each", "@for", "@while", "@include", "@mixin", "@function", "@return", "@debug", "@warn", "@error",
+            "@media", "@at-root", "@use", "@forward", "@import", "@content", "@extend", "@supports"}
+
+
 def swap_names(rng, src):
     """Exchange `_` and `-` inside some occurrences of variable names and of the names of mixins and
     functions defined in the text (each occurrence independently: every spelling must resolve)."""
@@ -410,8 +430,8 @@ def swap_names(rng, src):
     raw = False          # inside the value of a custom property (raw text, `$x` is not a variable there)
     for k, (kind, t) in enumerate(toks):
         nt = t
-        if kind == "ident" and t.startswith("--"):
-            raw = True
+        if (kind == "ident" and t.startswith("--")) or (kind == "at" and t.lower() not in _SASS_AT):
+            raw = True       # custom property value / prelude of an unknown at-rule: raw text
         elif raw and (t in (";", "}", "{") or (kind == "ws" and "\n" in t)):
             raw = False
         if raw:
@@ -549,6 +569,22 @@ def run(tier, seed):
         opts = {k: v for k, v in c["options"].items() if k != "syntax"}
         b = add("corpus-base", c["input"], syn, **opts)
         add_rewrites(ck, rng, add, c["input"], syn, b, n=3 if quick else 7, **opts)
+    # ---- (3b) texts that FAIL to compile, under the three other newline styles: feeds the span tie ----
+    multi_err = [c for c in cases if c["kind"] == "error" and "\n" in c["input"].strip("\n")]
+    for c in (rng.sample(multi_err, min(len(multi_err), 250)) if quick else multi_err):
+        syn = c["options"].get("syntax", "scss")
+        b = add("corpus-base", c["input"], syn)
+        for kd in NL_STYLES:
+            add("rewrite:nl-" + kd, nl_subst(kd, c["input"]), syn, base=b)
+    for _ in range(150 if quick else 5000):
+        t = print_scss(rng, Gen(rng).program())
+        if t.count("\n") < 2:
+            continue
+        cut = rng.randrange(len(t) // 2, len(t))
+        t = t[:cut] + rng.choice(["", "}", ")", "\"", "@", "$", "#{"])
+        b = add("corpus-base", t, "scss")
+        for kd in NL_STYLES:
+            add("rewrite:nl-" + kd, nl_subst(kd, t), "scss", base=b)
     # ---- (4) identifier normalisation tie -------------------------------------------------------
     names = []
     alpha = ["a", "_", "-", "b", "1", "__", "--", "_-"]
@@ -760,6 +796,8 @@ def add_rewrites(ck, rng, add, src, syn, base, n, **opts):
                 continue
             v = insert_ws_comments(rng, src, comments=(syn == "scss"))
         elif kd == "bom":
+            if src.startswith("\ufeff"):
+                continue         # "a leading BOM": a second one is an ordinary character
             v = "\ufeff" + src
         elif kd == "charset":
             if src.lstrip().lower().startswith("@charset") or src.startswith("\ufeff"):
